@@ -141,7 +141,7 @@ func TestC06Volume(t *testing.T) {
 // history that only moves forward); the checkpoint clauses are checked across
 // reverts, rebuilds and departures by programs without racing writers.
 var c13RevertCfg = SGenCfg{RFs: []int{1, 2, 2, 3}, MinOps: 5, MaxOps: 20, FaultPct: 0, RestFail: true, Blocks: 12, NoSpare: true,
-	W: map[string]int{"write": 30, "snapshot": 20, "ctlrevert": 14, "readd": 16, "remove": 4, "nodedrop": 3, "promotecp": 6, "read": 4, "snaprace": 3, "unmap": 8}}
+	W: map[string]int{"write": 30, "snapshot": 20, "ctlrevert": 14, "readd": 16, "remove": 4, "nodedrop": 3, "promotecp": 6, "read": 4, "snaprace": 3, "unmap": 8, "unmapsnap": 6}}
 
 func TestC13Revert(t *testing.T) {
 	runStackProperty(t, "C13", "TestC13Revert", func(rt *rapid.T) SProgram { return GenSProgram(rt, c13RevertCfg) },
